@@ -144,7 +144,10 @@ func genC20(t *rapid.T, thorough bool) C20Case {
 				// mirror an earlier entry, with the same or a different score
 				p := c.Entries[rapid.IntRange(0, len(c.Entries)-1).Draw(t, "which")]
 				e.A, e.B = p.B, p.A
-				if rapid.Bool().Draw(t, "same") {
+				if rapid.IntRange(0, 5).Draw(t, "ulp") == 3 {
+					// different scores, however close, are a conflict
+					e.V = gen.F(math.Nextafter(float64(p.V), math.Inf(1)))
+				} else if rapid.Bool().Draw(t, "same") {
 					e.V = p.V
 					if p.V == 0 && rapid.Bool().Draw(t, "negzero") {
 						e.V = gen.F(math.Copysign(0, -1)) // 0 and -0 are equal scores
@@ -725,6 +728,17 @@ func exhaustiveC20(thorough bool, emit func(C20Case) bool) {
 		return true
 	}
 	rec(nil, 0)
+	// mirrored scores one ulp (or one unit in 1e15) apart are different scores
+	for _, v := range []float64{0.3, 1, 1e15, -2.5, 1e-300} {
+		for _, w := range []float64{math.Nextafter(v, math.Inf(1)), math.Nextafter(v, math.Inf(-1)), v + v*1e-12} {
+			if w == v {
+				continue
+			}
+			if !emit(C20Case{Kind: "sym", Entries: []MatEntry{{A: 'a', B: 'b', V: gen.F(v)}, {A: 'b', B: 'a', V: gen.F(w)}, {A: 'c', B: 'c', V: 1}}}) {
+				return
+			}
+		}
+	}
 	// GoString with every byte value as a key and assorted scores
 	var es []MatEntry
 	scores := []float64{0, 1, -1, 0.5, 1e21, -1e-6, 1e100, 123456.789, -4, 2.5e-300}
